@@ -4673,6 +4673,12 @@ class WBEMConnection:  # pylint: disable=too-many-instance-attributes
         exc = None
         result_tuple = None
 
+        # Params may be any iterable (e.g. a generator, or the items view of
+        # a dictionary). It is needed more than once, and the recorders can
+        # only represent lists.
+        if Params is not None and not isinstance(Params, (list, tuple)):
+            Params = list(Params)
+
         if self._operation_recorders:
             self.operation_recorder_reset()
             self.operation_recorder_stage_pywbem_args(
